@@ -20,6 +20,8 @@ class Sched:
         self.trace = []
         self.switches = 0
         self.pos = 0
+        self.progress = 0
+        self.stolen = 0
 
     def _pick(self):
         ready = sorted(self.waiting)
@@ -39,11 +41,19 @@ class Sched:
 
     def yield_(self, tid):
         with self.cv:
+            self.progress += 1
             self.waiting.add(tid)
             if self.current == tid or self.current is None:
                 self._pick()
             while self.current != tid:
-                self.cv.wait()
+                seen = self.progress
+                if not self.cv.wait(0.25) and self.progress == seen and self.current != tid:
+                    # the thread holding the token has not reached a yield point for a while: it is blocked in
+                    # something the tracer does not see (an Event, a Condition, a lock of its own, a long native
+                    # call).  Blocking is legal; hand the token on instead of dead-locking the schedule.
+                    self.stolen += 1
+                    self.progress += 1
+                    self._pick()
             self.waiting.discard(tid)
 
     def done(self, tid):
@@ -128,13 +138,13 @@ def main():
     def sequential(workload):
         outs = []
         for call in workload:
-            P.cachable_tensor_method.cache_clear()
+            bridge.clear_kernel_cache()
             outs.append(safe_call(call))
-        P.cachable_tensor_method.cache_clear()
+        bridge.clear_kernel_cache()
         return outs
 
     def controlled(workload, choices, warm=False):
-        P.cachable_tensor_method.cache_clear()
+        bridge.clear_kernel_cache()
         if warm:
             # every kernel is compiled and cached beforehand: the concurrent calls share the cached objects
             for call in workload:
@@ -177,7 +187,7 @@ def main():
             hung = hung or t.is_alive()
         CC.lock = real_lock
         sched_ref.clear()
-        return results, {"yield_points": len(s.trace), "switches": s.switches, "hung": hung}
+        return results, {"yield_points": len(s.trace), "switches": s.switches, "hung": hung, "token_handed_on": s.stolen}
 
     def stress(workload, nthreads, rounds):
         all_results = []
@@ -185,7 +195,7 @@ def main():
         sys.setswitchinterval(1e-6)
         try:
             for _ in range(rounds):
-                P.cachable_tensor_method.cache_clear()
+                bridge.clear_kernel_cache()
                 results = [None] * len(workload)
                 barrier = threading.Barrier(min(nthreads, len(workload)))
                 chunks = [list(range(k, len(workload), nthreads)) for k in range(min(nthreads, len(workload)))]
